@@ -6,6 +6,7 @@ use roxmltree::Node;
 use crate::error::XlsxError;
 
 use super::{
+    shared_strings::decode_xlsx_escapes,
     util::get_attribute,
     worksheets::{Sheet, WorkbookXML},
 };
@@ -25,7 +26,7 @@ pub(super) fn load_workbook<R: Read + std::io::Seek>(
         .filter(|n| n.has_tag_name("sheet"))
         .collect();
     for sheet in sheet_nodes {
-        let name = get_attribute(&sheet, "name")?.to_string();
+        let name = decode_xlsx_escapes(get_attribute(&sheet, "name")?);
         let sheet_id = get_attribute(&sheet, "sheetId")?.to_string();
         let sheet_id = sheet_id.parse::<u32>()?;
         let id = get_attribute(
@@ -55,8 +56,8 @@ pub(super) fn load_workbook<R: Read + std::io::Seek>(
         .filter(|n| n.has_tag_name("definedName"))
         .collect();
     for node in name_nodes {
-        let name = get_attribute(&node, "name")?.to_string();
-        let formula = node.text().unwrap_or("").to_string();
+        let name = decode_xlsx_escapes(get_attribute(&node, "name")?);
+        let formula = decode_xlsx_escapes(node.text().unwrap_or(""));
         // NOTE: In Excel the `localSheetId` is just the index of the worksheet and unrelated to the sheetId
         let sheet_id = match node.attribute("localSheetId") {
             Some(s) => {
